@@ -9,7 +9,7 @@ Open Scope list_scope.
 
 Definition ekind_eqb (a b : ekind) : bool :=
   match a, b with
-  | KDup, KDup | KAmbig, KAmbig | KMissing, KMissing | KArray, KArray | KNoncomposite, KNoncomposite => true
+  | KDup, KDup | KAmbig, KAmbig | KMissing, KMissing | KArray, KArray | KNoncomposite, KNoncomposite | KModule, KModule => true
   | _, _ => false
   end.
 
